@@ -1,4 +1,5 @@
 # C19 - a text conflict is recorded exactly when the three-way text merge has conflicting regions; the helper files hold BASE, THIS, OTHER.
+SOLVER_RACE = True       # covers and canaries need models of sequence formulas: cvc5 finds them where z3 answers unknown
 LINES = Seq(BYTES)
 MARK = lift(b"!START OF MERGE CONFLICT!I HOPE THIS IS UNIQUE")
 M3Lines = ufunc("M3Lines", LINES)          # what Merge3.merge_lines yields (merge3 package, external)
